@@ -26,6 +26,7 @@ type Std struct {
 	SEq *Type // struct with Equal+Compare methods implemented by derived functions (the idiom)
 	SCi *Type // struct with custom (case-insensitive) Equal/Compare methods
 	SCv *Type // same, but the methods have value receivers and value parameters
+	SH  *Type // ==-comparable struct whose fields have the custom methods (the methods must still decide)
 	// imported
 	XE    *Type // imported struct, exported fields only
 	XU    *Type // imported struct with unexported fields (nameable types)
@@ -58,6 +59,7 @@ func NewStd(u *Universe) *Std {
 	s.SCi.EqualMethod, s.SCi.CompareMethod = "custom", "custom"
 	s.SCv = u.DeclareAs("", "SCv", StructOf(F("Word", B("string"))))
 	s.SCv.EqualMethod, s.SCv.CompareMethod = "customv", "customv"
+	s.SH = u.DeclareAs("", "SH", StructOf(F("N", B("int")), F("H", s.SCi), F("V", s.SCv), F("A", Array(2, s.SCi))))
 
 	s.XN = u.DeclareAs(ExtPlain, "Num", B("int32"))
 	s.XE = u.DeclareAs(ExtPlain, "Pub", StructOf(F("I", B("int")), F("S", B("string")), F("P", Ptr(B("float64"))), F("L", Slice(B("uint16"))), F("N", s.XN)))
@@ -85,7 +87,7 @@ func (s *Std) Leaves() []*Type {
 // ExtraLeaves are used by the random part only.
 func (s *Std) ExtraLeaves() []*Type {
 	return []*Type{B("int8"), B("int16"), B("int32"), B("int64"), B("uint"), B("uint16"), B("uint32"), B("uint64"), B("uintptr"),
-		B("float32"), B("complex64"), B("byte"), s.NBool, s.NU8, s.SE, s.SEq, s.SCi, s.SCv, s.XDupA, s.XDupB, s.XN, s.NSlice, s.NMap, s.NArr, s.NPtr}
+		B("float32"), B("complex64"), B("byte"), s.NBool, s.NU8, s.SE, s.SEq, s.SCi, s.SCv, s.SH, s.XDupA, s.XDupB, s.XN, s.NSlice, s.NMap, s.NArr, s.NPtr}
 }
 
 // Keys returns the value-key types for maps (pointer-free, ==-comparable).
